@@ -31,14 +31,17 @@ ASSUMPTIONS = [
 
 def budget(tier):
     if tier == "quick":
-        return dict(examples=25, shards=16)
-    return dict(examples=500, shards=16, shrink_calls=2000)
+        return dict(examples=25, shards=16, shrink_calls=30)
+    return dict(examples=500, shards=16, shrink_calls=300)
 
 
 @st.composite
 def _case(draw, big=False):
     case = draw(M.network(max_species=20 if big else 9, max_reactions=40 if big else 10, thermal=True, modifiers=draw(st.booleans())))
     case["route"] = "api"
+    # a fraction of the cases is also compiled (ASan/UBSan, exactly-sized buffers) and compared with my reading of the text
+    case["compile"] = draw(st.integers(0, 5 if not big else 2)) == 0
+    case["yexp"] = [draw(st.integers(-12, 0)) for _ in range(6)]
     return case
 
 
@@ -67,6 +70,107 @@ def check_rate_subscripts(proj, failures, tag):
                 seen.add(n)
 
 
+PV = {"nH": 1.3e4, "Tgas": 57.0, "zeta": 1.3e-17, "Av": 1.5, "omega": 0.5, "mu": 1.4, "gamma": 1.6}
+
+
+def compiled_cross_check(case, projs, lays, failures):
+    """Engine A vs engine B: compiled Fex/Jac (sanitizers on) against the polynomials read from the text."""
+    from ..cxx import build
+    from .. import ratecase as R
+
+    for method in ("dense", "sparse", "rosenbrock4"):
+        proj = projs[method]
+        try:
+            exe = build.build_ode_driver(proj, PV)
+        except build.BuildError as e:
+            failures.append((f"compiled/does-not-compile/{build.classify_diag(next((l for l in str(e).splitlines() if 'error' in l), 'error: ?'))}", f"{method}: {str(e)[-400:]}"))
+            continue
+        neq = proj.neq
+        ys = []
+        for k in range(2):
+            ys.append([10.0 ** case["yexp"][(i + k) % len(case["yexp"])] * (1.0 + 0.1 * i) for i in range(neq)])
+            if proj.ints.get("IDX_TGAS") is not None:
+                ys[-1][proj.ints["IDX_TGAS"]] = 50.0 + 100.0 * k
+        text = "".join("y " + " ".join(float(v).hex() for v in y) + "\nrun\n" for y in ys)
+        rc, out, err = build.run_driver(exe, text, proj.path)
+        if rc != 0 or "AddressSanitizer" in err or "runtime error:" in err or "VT_BOUNDS" in err:
+            kind = "asan" if "AddressSanitizer" in err else "ubsan" if "runtime error" in err else "bounds" if "VT_BOUNDS" in err else f"exit{rc}"
+            failures.append((f"compiled/sanitizer/{kind}/{method}", f"{method}: {err[-500:]}"))
+            continue
+        blocks = build.parse_ode_output(out)
+        if len(blocks) != len(ys):
+            raise RuntimeError(f"ode driver produced {len(blocks)} blocks: {err[-300:]}")
+        consts = R.constants_of(proj) if (proj.path / "src" / "naunet_constants.cpp").exists() else {}
+        slots = N.slot_of(case, proj)
+        fex = proj.fex_polys()
+        ent = lays[method]["entries"]
+        for y, b in zip(ys, blocks):
+            env = {f"y[{i}]": v for i, v in enumerate(y)}
+            env.update({f"k[{i}]": v for i, v in enumerate(b["K"])})
+            env.update({f"kh[{i}]": v for i, v in enumerate(b.get("KH", []))})
+            env.update({f"kc[{i}]": v for i, v in enumerate(b.get("KC", []))})
+            env.update(PV)
+            env["kerg"] = consts.get("kerg", 1.380658e-16)
+            env["npar"] = sum(y[: proj.nspec])
+            # gross magnitude of the terms that may cancel (the normal form has already cancelled them)
+            gross = 0.0
+            for ri, rc in enumerate(case["reactions"]):
+                t = abs(b["K"][ri]) if ri < len(b["K"]) else 0.0
+                for i in rc["r"]:
+                    t *= y[slots[i]]
+                gross += t
+            for m in case.get("ode_mod", []):
+                from ..ctext.lexer import parse_expression
+                from ..ctext.poly import ast_to_poly
+
+                t = abs(ast_to_poly(parse_expression(m["factor"])).evaluate(env)[1])
+                for i in m["deps"]:
+                    t *= y[slots[i]]
+                gross += t
+            therm = 0.0
+            for j, e in enumerate(case.get("heating", [])):
+                t = abs(env.get(f"kh[{j}]", 0.0))
+                for i in e["r"]:
+                    t *= y[slots[i]]
+                therm += t
+            for j, e in enumerate(case.get("cooling", [])):
+                t = abs(env.get(f"kc[{j}]", 0.0))
+                for i in e["r"]:
+                    t *= y[slots[i]]
+                therm += t
+            therm *= abs((env["gamma"] - 1.0) / env["kerg"] / env["npar"]) if env["npar"] else 0.0
+            tg = proj.ints.get("IDX_TGAS", -1)
+            ymin = min(v for v in y[: proj.nspec]) if proj.nspec else 1.0
+            for s, p in fex.items():
+                want, scale = p.evaluate(env)
+                got = b["F"][s]
+                g = therm if s == tg else gross
+                if not (abs(got - want) <= 1e-11 * max(scale, abs(want), g) + 1e-290 or (got != got and want != want)):
+                    failures.append((f"compiled/fex-differs-from-text/{method}", f"{method}: compiled ydot[{s}] = {got!r}, the text evaluates to {want!r}"))
+                    break
+            if method == "sparse":
+                rp, cv, da = b["RP"], b["CV"], b["DA"]
+                if rp != [lays[method]["rowptrs"][i] for i in range(neq + 1)] or cv != [lays[method]["colvals"][i] for i in range(proj.nnz)]:
+                    failures.append(("compiled/csr-arrays-differ-from-text", f"sparse: compiled rowptrs/colvals {rp[:6]}/{cv[:6]} differ from the text"))
+                    continue
+                got_j = {}
+                for r in range(neq):
+                    for n in range(rp[r], rp[r + 1]):
+                        got_j[(r, cv[n])] = da[n]
+            else:
+                got_j = b["J"]
+            for rc_, p in ent.items():
+                want, scale = p.evaluate(env)
+                got = got_j.get(rc_, 0.0)
+                g = (therm if rc_[0] == tg else gross) * 3.0 / (y[rc_[1]] if 0 <= rc_[1] < proj.nspec and y[rc_[1]] else ymin)
+                if not abs(got - want) <= 1e-11 * max(scale, abs(want), g) + 1e-290:
+                    failures.append((f"compiled/jac-differs-from-text/{method}", f"{method}: compiled J{rc_} = {got!r}, the text evaluates to {want!r}"))
+                    break
+            extra = [c for c, v in got_j.items() if c not in ent and abs(v) > 1e-11 * gross * 3.0 / ymin + 1e-290]
+            if extra:
+                failures.append((f"compiled/jac-extra-entry/{method}", f"{method}: compiled Jacobian has non-zero entries {extra[:3]} the text does not assign"))
+
+
 def check_case(case, tier):
     N.reset_naunet_state()
     failures = []
@@ -75,7 +179,7 @@ def check_case(case, tier):
     with N.Scratch() as d, N.ThermalPatch(case):
         try:
             net = N.build_network(case)
-            projs = N.render(net, d, jac_pattern=True)
+            projs = N.render(net, d, jac_pattern=True, templates="all" if case.get("compile") else "ode")
         except Exception as e:
             import traceback
 
@@ -139,6 +243,9 @@ def check_case(case, tier):
                     failures.append(("pattern/shape", f"{method}: pattern is not a {neq}x{neq} 0/1 matrix"))
                 elif ones != set(lays[method]["entries"]):
                     failures.append(("pattern/entries", f"{method}: pattern ones differ from stored entries: only-pattern {sorted(ones - set(lays[method]['entries']))[:3]} only-stored {sorted(set(lays[method]['entries']) - ones)[:3]}"))
+            if case.get("compile") and not failures:
+                labels.append("compiled-cross-check")
+                compiled_cross_check(case, projs, lays, failures)
             rowcount = {}
             for (r, c) in base:
                 rowcount[r] = rowcount.get(r, 0) + 1
